@@ -361,7 +361,7 @@ distinct = distinct (cut count, layout seed) and raw values; oracle = fields at 
     ctx.floor_evaluations = 100_000;
     let seed = ctx.seed;
     let mut rng = Rng::derive(seed, 11, 0);
-    let reps = ctx.tier.pick(24, 4_000);
+    let reps = ctx.tier.pick(100, 4_000);
 
     // ---- layout, every cut count --------------------------------------------------------------------
     let mut base_msg: Option<Message> = None;
